@@ -126,7 +126,7 @@ sweep:
 	// and under the link options with URL checking switched off again afterwards
 	for _, ps := range b1Policies {
 		gp := ps.buildGo()
-		for _, u := range urlCorpus(rng, 200) {
+		for _, u := range append(urlCorpus(rng, 200), shortURLs()...) {
 			for _, el := range []string{"img", "iframe", "a", "q", "source", "video", "area", "link", "base"} {
 				key := map[string]string{"a": "href", "q": "cite", "area": "href", "link": "href", "base": "href"}[el]
 				if key == "" {
